@@ -138,7 +138,7 @@ static void write_crystal_file(FILE *f, const m_crystal *c, int corrupt, xv_rng 
   else if (corrupt != 3) fprintf(f, "#UCELL %.17g %.17g %.17g %.17g %.17g %.17g\n", c->cell[0], c->cell[1], c->cell[2], c->cell[3], c->cell[4], c->cell[5]);
   if (corrupt == 4) fprintf(f, "#UCELL 1 2 3 90 90 90\n");                    /* two UCELL lines */
   fprintf(f, "#USYSTEM generated\n#N 5\n#L AtomicNumber Fraction X Y Z\n");
-  for (k = 0; k < c->n_atom; k++) {
+  for (k = 0; k < (corrupt == 7 ? 0 : c->n_atom); k++) {
     if (corrupt == 5 && k == c->n_atom / 2) { fprintf(f, "%d %.17g xx %.17g\n", c->atom[k].Zatom, c->atom[k].fraction, c->atom[k].y); continue; }   /* unparsable atom line */
     fprintf(f, "%d %.17g %.17g %.17g %.17g\n", c->atom[k].Zatom, c->atom[k].fraction, c->atom[k].x, c->atom[k].y, c->atom[k].z);
   }
@@ -176,7 +176,7 @@ static void crystal_history(long hno, int maxlen, int builtin, const char *tmpdi
     xrl_error **ep = xv_below(&r, 4) ? &e : NULL;
     if (!ep) TR("noslot:");
     hm_steps++; hm_last->step = step;
-    if (op < 40 || (builtin && op < 85)) {                                  /* ---- add a fresh crystal */
+    if (op < 40 || (builtin && op < 72)) {                                  /* ---- add a fresh crystal */
       gen_crystal(&r, &c, NULL);
       if (m_find(&A, c.name) >= 0) continue;
       s = to_struct(&c, -1.0 - step); e = NULL; LAST("Crystal_AddCrystal(%s)", c.name); TR("add(%s,%d atoms);", c.name, c.n_atom);
@@ -204,10 +204,10 @@ static void crystal_history(long hno, int maxlen, int builtin, const char *tmpdi
       e = NULL; LAST("Crystal_AddCrystal(NULL)"); TR("addnull;"); rv = Crystal_AddCrystal(NULL, A.arr, ep); count_op(OP_ADD_NULL, 0);
       if (rv || (ep && !e)) hm_violation("c14:null-crystal-accepted", "no error for a NULL crystal"); if (e) xrl_error_free(e);
       check_array(&A, "null-add");
-    } else if (op < 68 && !builtin) {                                       /* ---- crystal files */
+    } else if ((op < 68 && !builtin) || (builtin && op >= 72 && op < 85)) {  /* ---- crystal files (into the built-in collection too: its capacity is fixed) */
       int kind = xv_below(&r, 10), ncr = 1 + xv_below(&r, kind < 5 ? 30 : 6), k, corrupt = 0, badpos = -1, dup = 0; m_crystal *fc = malloc(sizeof(m_crystal) * ncr); FILE *f; int ok = 1;
       for (k = 0; k < ncr; k++) { int j, clash; do { gen_crystal(&r, &fc[k], NULL); clash = m_find(&A, fc[k].name) >= 0 || fc[k].n_atom == 0 || strlen(fc[k].name) > 20; for (j = 0; j < k; j++) if (!strcmp(fc[j].name, fc[k].name)) clash = 1; } while (clash); }
-      if (kind >= 5 && kind < 8) { corrupt = 1 + xv_below(&r, 5); badpos = xv_below(&r, ncr); }
+      if (kind >= 5 && kind < 8) { corrupt = 1 + xv_below(&r, 6); if (corrupt == 6) corrupt = 7; badpos = xv_below(&r, ncr); }   /* 7: a definition without atom rows */
       else if (kind == 8 && A.n) { int pick = xv_below(&r, A.n);      /* a file can only name an existing crystal whose name fits its 20-character field */
         if (strlen(A.c[pick].name) <= 20) { dup = 1; badpos = xv_below(&r, ncr); strcpy(fc[badpos].name, A.c[pick].name); } }
       else if (kind == 9) { corrupt = 6; }                                   /* truncated mid-definition */
@@ -227,7 +227,13 @@ static void crystal_history(long hno, int maxlen, int builtin, const char *tmpdi
       TR("readfile(n=%d,corrupt=%d@%d,dup=%d);", ncr, corrupt, badpos, dup);
       rv = Crystal_ReadFile(path, A.arr, ep);
       unlink(path);
-      if (!corrupt && !dup) {
+      if (!corrupt && !dup && builtin && A.n + ncr > CRYSTALARRAY_MAX) {
+        /* more definitions than the fixed table has room for: refused as a whole, nothing of the file stays behind */
+        count_op(OP_READ_BAD, 2);
+        if (rv || (ep && !e)) hm_violation("c14:builtin-grew-past-capacity", rv ? "Crystal_ReadFile returned 1 for a file that does not fit into the built-in collection" : "0 without error");
+        if (e) xrl_error_free(e);
+        check_array(&A, "readfile-over-capacity");
+      } else if (!corrupt && !dup) {
         count_op(OP_READ_OK, rv ? 0 : 1);
         if (!rv || e) { snprintf(key, sizeof key, "c14:wellformed-file-rejected:%s", A.n + ncr > A.cap0 ? "beyond-initial-capacity" : "within-capacity"); hm_violation(key, e ? e->message : "returned 0 without error"); ok = 0; }
         else { if (A.n + ncr > A.cap0) A.grew = 1; for (k = 0; k < ncr; k++) m_add(&A, &fc[k]); }
